@@ -28,6 +28,7 @@ RULE = ('Exhaustive box of client-size sequences sizes in {0..2B+1}^m, m<=3, B<=
         'box x every buffer size plus random points; shuffle_repeat_batch_federated_data prefixes. Non-trivial: padded '
         'point with >=2 clients or a remainder; shuffle/repeat with >=2 items; batch-shuffle with >=2 examples; distinct by '
         'the full case parameters.')
+RULE += (' Wave-4 addition: the first padded stream of every case is held while a second stream of the same layout and sizes but other values is batched, then re-compared bit for bit.')
 ASSUMPTIONS = [
     'generated batch preprocessors are strictly per-example (commute with slicing and concatenation)',
     'for a total of zero examples only "no real row is produced" is demanded (an all-padding batch is accepted)',
